@@ -189,6 +189,8 @@ class Address:
                         local_ip_net = '32'
 
                     self.addrPort = int(local_ip_port)
+                    if self.addrPort > 65535:
+                        raise ValueError("port out of range")
                     self.addrTuple = (local_ip_addr, self.addrPort)
                     if _debug: Address._debug("    - addrTuple: %r", self.addrTuple)
 
@@ -318,6 +320,8 @@ class Address:
                 interface, port = interface_re.match(addr).groups()
                 if port is not None:
                     self.addrPort = int(port)
+                    if self.addrPort > 65535:
+                        raise ValueError("port out of range")
                 else:
                     self.addrPort = 47808
 
@@ -367,6 +371,8 @@ class Address:
         elif isinstance(addr, tuple):
             addr, port = addr
             self.addrPort = int(port)
+            if (self.addrPort < 0) or (self.addrPort > 65535):
+                raise ValueError("port out of range")
 
             if isinstance(addr, str):
                 if not addr:
